@@ -270,10 +270,14 @@ def check(spec, env):
             for k, e in enumerate(log):
                 if e[3] != "clock-jump":
                     continue
-                if not any(w[0].startswith("ThrottleExecutor") and w[1] == "SimEvent" for w in e[5]):
+                # the jump must have woken the hand-over thread's timer and nothing else (anything
+                # else waking at the same instant - a callable finishing, a poll resolving a future
+                # whose owner then submits - may legitimately create the work it then hands over)
+                if len(e[5]) != 1 or not (e[5][0][0].startswith("ThrottleExecutor") and e[5][0][1] == "SimEvent"):
                     continue
                 nxt = [x for x in log[k + 1:k + 400] if x[2] == tid]
-                if nxt and nxt[0][3] == "dsubmit" and nxt[0][4] == lvl:
+                queued_before = nxt and any(x[3] == "dsubmit-ret" and x[4] == lvl + 1 and x[5] == nxt[0][5] and x[0] < e[0] for x in log[:k])
+                if nxt and nxt[0][3] == "dsubmit" and nxt[0][4] == lvl and queued_before:
                     out.append({"oracle": "fallback-timer", "sig": "progress-hinged-on-fallback-timer|throttle",
                                 "msg": "at t=%.3fs the throttle hand-over thread was woken only by its fallback timer (clock jump of %.3fs) and then "
                                        "handed submission %r to its delegate: the job had been ready all along; layers %s"
